@@ -1076,6 +1076,16 @@ func (env *Env) elabCall(x *ECall) SV {
 				}
 				env.tr.stateSort["call."+fid.Name+".n"] = "Int"
 				return env.boolSV(app(">", env.tr.getState(env.st, "call."+fid.Name+".n"), "0"))
+			case "samearray":
+				// samearray(a, b): two slices share their backing array
+				if len(x.Args) == 2 {
+					a := env.elab(x.Args[0])
+					b := env.elab(x.Args[1])
+					if a.sort == "Slice" && b.sort == "Slice" {
+						return env.boolSV(eq("(sarr "+a.t+")", "(sarr "+b.t+")"))
+					}
+				}
+				return env.fail("samearray needs two slices")
 			case "fresh":
 				// fresh(p): pointer allocated during this call
 				v := env.elab(x.Args[0])
